@@ -3,7 +3,7 @@
    standalone save flow on the request, folder and prefix in force when it was started, in a
    directory nobody had; nothing else in the world changes. *)
 From Coq Require Import List Bool Arith ZArith Lia String.
-From PyxelV Require Import Model.Outputs Model.OutputsHist Proofs.OutputsDir Proofs.OutputsFiles.
+From PyxelV Require Import Model.Outputs Model.OutputsHist Proofs.OutputsDir Proofs.OutputsFiles Proofs.OutputsSeq.
 Import ListNotations.
 Open Scope string_scope.
 Local Open Scope list_scope.
@@ -489,4 +489,87 @@ Proof.
   - destruct H as [<-|H]; [left; reflexivity | right; eauto].
   - destruct H as [<-|H]; [left; reflexivity | right; eauto].
   - right. eauto.
+Qed.
+
+(* ------------------------------------------------------------------ all three modes at once *)
+
+Lemma flow_complete_seq : forall T,
+  t_old_all_items T = true -> t_old_merge T = true -> old_ext_ok T = true -> flow_complete MSeq T.
+Proof.
+  intros T Al M Ok ep req n pre fs rep H x b f nm. simpl in H.
+  rewrite (flow_seq_complete T Al M Ok _ _ _ _ _ _ H). simpl. tauto.
+Qed.
+
+(* conditions on the regenerated tables under which every flow is complete / never clobbers / attributes *)
+Definition complete_ok (T : tables) : bool := t_old_all_items T && t_old_merge T && old_ext_ok T.
+Definition clobber_ok (T : tables) : bool := safe_new T && safe_old T && stage_ok T.
+Definition attr_ok (T : tables) : bool := raise_new T && raise_old T && stage_ok T.
+
+Lemma flow_complete_all : forall T m, complete_ok T = true -> flow_complete m T.
+Proof.
+  intros T m H. unfold complete_ok in H. apply andb_true_iff in H. destruct H as [H Ok].
+  apply andb_true_iff in H. destruct H as [Al M].
+  destruct m; [apply flow_complete_exposure | now apply flow_complete_seq | apply flow_complete_dask].
+Qed.
+
+Lemma flow_preserves_all : forall T m, clobber_ok T = true -> flow_preserves m T.
+Proof.
+  intros T m H. unfold clobber_ok in H. apply andb_true_iff in H. destruct H as [H St].
+  apply andb_true_iff in H. destruct H as [Sn So].
+  intros ep req n pre fs rep e Fl. destruct m; simpl in Fl.
+  - eapply flow_exposure_preserves; eauto.
+  - eapply flow_seq_preserves; eauto.
+  - eapply flow_dask_preserves; eauto.
+Qed.
+
+Lemma flow_attributed_all : forall T m, attr_ok T = true -> flow_attributed m T (fun _ => True).
+Proof.
+  intros T m H. unfold attr_ok in H. apply andb_true_iff in H. destruct H as [H St].
+  apply andb_true_iff in H. destruct H as [Rn Ro].
+  intros ep req n pre fs rep e _ Fl. destruct m; simpl in Fl.
+  - eapply flow_exposure_attributed_raise; eauto.
+  - eapply flow_seq_attributed; eauto.
+  - eapply flow_dask_attributed_raise; eauto.
+Qed.
+
+(* every finished simulation of a history, judged against the request in force when it started *)
+Theorem hist_complete : forall m T ts ops c w wf recs,
+  complete_ok T = true -> t_dask_snapshot T = true \/ plain ops ->
+  run_hist m T true ts ops (init_state c) w 0 = (wf, recs) ->
+  forall r, In r recs -> r_err r = None ->
+  exists s, In s (sims ts ops c 0) /\ sm_ep s = r_ep r /\
+    forall x b f n, In (x, b, f, n) (r_rep r) <->
+      x < nruns_of (eff_mode m s) (sm_n s) /\ In (b, f) (items (sm_req s)) /\
+      n = spec_name (eff_mode m s) x b f.
+Proof.
+  intros m T ts ops c w wf recs Ok Hm H r Hr He.
+  destruct (hist_lift m T ts ops c w wf recs Hm H r Hr) as (s & Hs & E & _ & _ & _ & _ & Fl).
+  exists s. split; [exact Hs|]. split; [exact E|]. rewrite He in Fl.
+  exact (flow_complete_all T (eff_mode m s) Ok _ _ _ _ _ _ Fl).
+Qed.
+
+Theorem hist_never_clobbers : forall m T ts ops c w wf recs,
+  clobber_ok T = true -> t_dask_snapshot T = true \/ plain ops ->
+  run_hist m T true ts ops (init_state c) w 0 = (wf, recs) ->
+  (forall d fs, wget d w = Some fs -> wget d wf = Some fs) /\
+  (forall r, In r recs -> exists s fs, In s (sims ts ops c 0) /\ sm_ep s = r_ep r /\
+     wget (r_dir r) wf = Some fs /\ forall f x, lookup f (sm_pre s) = Some x -> lookup f fs = Some x).
+Proof.
+  intros m T ts ops c w wf recs Ok Hm H.
+  split; [exact (proj1 (proj2 (proj2 (proj2 (hist_sound m T ts ops c w wf recs Hm H)))))|].
+  intros r Hr.
+  destruct (hist_lift m T ts ops c w wf recs Hm H r Hr) as (s & Hs & E & _ & _ & _ & W & Fl).
+  exists s, (r_files r). split; [exact Hs|]. split; [exact E|]. split; [exact W|].
+  exact (flow_preserves_all T (eff_mode m s) Ok _ _ _ _ _ _ _ Fl).
+Qed.
+
+Theorem hist_attributed : forall m T ts ops c w wf recs,
+  attr_ok T = true -> t_dask_snapshot T = true \/ plain ops ->
+  run_hist m T true ts ops (init_state c) w 0 = (wf, recs) ->
+  forall r, In r recs -> exists fs, wget (r_dir r) wf = Some fs /\ attributed (r_ep r) (r_rep r) fs.
+Proof.
+  intros m T ts ops c w wf recs Ok Hm H r Hr.
+  destruct (hist_lift m T ts ops c w wf recs Hm H r Hr) as (s & Hs & E & _ & _ & _ & W & Fl).
+  exists (r_files r). split; [exact W|]. rewrite <- E.
+  exact (flow_attributed_all T (eff_mode m s) Ok _ _ _ _ _ _ _ I Fl).
 Qed.
